@@ -30,7 +30,7 @@ import re
 import kinds as K
 import fingerprint as FP
 
-INFORMATIVE = re.compile(r'"(\.[A-Za-z_]\w*|call:[A-Za-z_][\w<>]*::\w+|const:\w+|[A-Z]\w+::\w+)"')
+INFORMATIVE = re.compile(r'"(\.[A-Za-z_]\w*|call:[A-Za-z_][\w<>]*::\w+|const:\w+|[A-Z]\w+::\w+|lit:-?\d{2,})"')      # a bound of two or more digits is a named constant's value
 ERR_ADT = re.compile(r"(Error|Err|Reject|Status|StatusCode)$")
 PARAM = re.compile(r"P\d+(\.[A-Za-z_0-9#]+)*")
 
@@ -215,6 +215,14 @@ def _atoms(bodies, S):
         except Exception:
             logb = set()
         err = b.error_exit_blocks(())
+        # the relayer / synchronizer verifiers answer with a `Status`, not a `Result`: a block that builds a rejection Status
+        # (StatusCode::X.with_context(..) / StatusCode::X.into()) is an error exit just as `Err(..)` is
+        try:
+            for c in b.calls:
+                if c.callee.endswith("StatusCode::with_context") or (c.callee.endswith("Into::into") and getattr(c, "atys", None) and "StatusCode" in str(c.atys[0])):
+                    err = set(err) | {c.bb}
+        except Exception:
+            pass
         rets = set(b.return_blocks())
         succ_rets = rets - err
         anchors = {}
@@ -272,7 +280,20 @@ def _atoms(bodies, S):
                 # guards are atoms of their own); it can still be a *guard* when it tests the result of a workspace call and neither side rejects
                 plumbing = hc[0] == "match" and hc[1] and hc[1][0] in ("Option::None", "Result::Err")
                 if hc[0] == "if":
-                    core = _j([hc[0], [hc[1][0]] + list(clean(hc[1][1:])) if hc[1] else [], clean(hc[2])])
+                    rcv = list(clean(hc[1][1:])) if hc[1] else []
+                    if hc[1] and not rcv and not clean(hc[2]) and re.search(r"::(is_empty|is_zero|is_none|is_some|is_ok|is_err)$", str(hc[1][0])):
+                        # `x.getter().is_empty()` where the getter is generated / plumbing code: the form of the receiver is empty; name the
+                        # receiver by the workspace getters in its provenance so that the test can count as a guard (`!proposals().is_empty() &&`
+                        # in front of a rejection)
+                        try:
+                            cs = [c for c in b.calls if c.bb == site.bb]
+                            if cs and cs[0].args:
+                                names = sorted({"call:" + "::".join(re.sub(r"<[^<>]*>", "", x[5:]).split("::")[-2:]) for x in b.operand_sources(cs[0].args[0])
+                                                if x.startswith("call:ckb_") and not PLUMB.match("call:::" + x.split("::")[-1])})
+                                rcv = names[:3]
+                        except Exception:
+                            pass
+                    core = _j([hc[0], [hc[1][0]] + rcv if hc[1] else [], clean(hc[2])])
                 else:
                     core = _j([hc[0], clean(hc[1]), clean(hc[2])])
                 if not INFORMATIVE.search(core if not plumbing else _j(list(clean(hc[2])))):
